@@ -12,6 +12,11 @@ CHECKS = {
             "random components up to 10^12, negative leading components, quarters/weeks, through all six dialect contexts; "
             "the oracle is a decoder of the documented 'Y-M-D h:m:s.u' layout. Exploration, not proof, outside the grid.",
             "Trusted: the decoder's reading of the layout and the template table (vendor documentation)."),
+    "C06": ("exhaustive (parent, child, position) operator table x 6 contexts + Hypothesis random trees; reference Pratt parser over the reference lexer, SQLite evaluation grid",
+            "Generated-input search with two oracles: rendered text is lexed and parsed under the standard ladder and compared, in a normal form "
+            "hiding only the allowed re-associations, with the tree that was built; on the SQLite context the text is also evaluated against a fully "
+            "parenthesised transcription over a grid of leaf assignments. The triple table is enumerated completely; deeper trees are sampled.",
+            "Trusted: the precedence ladder in pbt/exprparse.py (self-tested against SQLite on every case) and the dialect lexers."),
 }
 
 NOT_BUILT = {}
